@@ -43,6 +43,9 @@ theorem constants_pinned :
     Facts.mandatoryDNFields = Spec.mandatoryDNFields ∧ Facts.fileNameRefused = Spec.fileNameRefused := by
   decide
 
+/-- the fact extractor found the three regular expressions (wherever the source defines them) -/
+theorem regex_readers_ok : Facts.regexReaderProblems = [] := by decide
+
 theorem level_names_nodup : (Facts.levels.map (·.1)).Nodup := by decide
 theorem empty_not_level : "" ∉ Facts.levels.map (·.1) := by decide
 theorem skip_is_level : Facts.levelSkipName ∈ Facts.levels.map (·.1) := by decide
@@ -1482,6 +1485,13 @@ example : isOk (validate .oci { sampleDoc with statements :=
     [{ sampleStmt with identities := sampleStmt.identities ++ sampleStmt.identities }] }) = false := by decide
 
 def badBlob : Doc := { sampleDoc with statements := [sampleStmt, { sampleSkip with isGlobal := true }] }
+/-- a blank (whitespace-only) statement name is a non-empty name: such a document is accepted -/
+example : isOk (validate .oci { sampleDoc with statements := [{ sampleStmt with name := " " }, { sampleSkip with name := "\t" }] }) = true := by
+  decide
+/-- host labels must be joined by dots -/
+example : isOk (validate .oci { sampleDoc with statements :=
+    [{ sampleStmt with scopes := ["my_registry/app".toList] }] }) = false := by decide
+
 def sampleInput : Input := { kind := "oci", doc := sampleDoc, other := some badBlob, rx := "", text := [] }
 
 example : Holds sampleInput (run sampleInput) = true := model_holds _
